@@ -166,7 +166,24 @@ def _reshape_target(rng, shape):
     return tgt
 
 
-def _gen(rng, op, long=False):
+def _unknown(rng, c, shape, cat_axis):
+    """Unknown chunk sizes (the members are filtered with a lazy boolean mask along axis b) for concatenate / stack / block.
+    b == the concatenation axis: every member has a mask of its own and the flag is not needed; b != it (always for
+    stack): the members share the mask AND the chunks along b (dask cannot align unknown chunks, documented) and
+    allow_unknown_chunksizes=True is required."""
+    nd = len(shape)
+    b = rng.randrange(nd)
+    same = b != cat_axis
+    c["unk"] = {"b": b, "flag": True if same else rng.random() < 0.5, "same": same, "mseed": rng.randrange(2 ** 31)}
+    bch = [list(x) for x in A.rand_chunks(rng, shape)][b]
+    c["unk"]["bchunks"] = bch
+    for s2 in c["secs"]:
+        s2["np"] = False
+        if same:
+            s2["chunks"][b] = list(bch)
+
+
+def _gen(rng, op, long=False, audit=True):
     minnd = {"tril": 2, "triu": 2, "rot90": 2, "take": 1, "shuffle": 1, "diff": 1, "block": 1, "pad": 1}.get(op, 0)
     maxlen = 7
     shape = A.rand_shape(rng, maxnd=3, maxlen=maxlen, minnd=minnd)
@@ -174,6 +191,11 @@ def _gen(rng, op, long=False):
         # axis permutations only differ from each other with >= 3 axes: half of these cases are 3-d / 4-d with
         # pairwise different lengths
         shape = tuple(rng.sample((1, 2, 3, 4, 5), rng.choice((3, 3, 4))))
+    elif audit and not long and rng.random() < 0.16:
+        # parameter audit: every operation also on 3-d / 4-d arrays with pairwise different lengths (an axis mix-up is
+        # invisible when two lengths agree); pad / tile / block / tril / triu stay 3-d (task count)
+        k = 3 if op in ("pad", "tile", "block", "tril", "triu", "broadcast_to") else rng.choice((3, 3, 4))
+        shape = tuple(rng.sample((2, 3, 4, 5, 6), k))
     if op in ("pad", "shuffle") and rng.random() < 0.9:
         shape = tuple(max(1, s) for s in shape)
     longchunks = None
@@ -188,6 +210,8 @@ def _gen(rng, op, long=False):
     c = {"op": op}
     if op == "reshape":
         c.update(tgt=_reshape_target(rng, shape), mc=rng.random() < 0.5, form=rng.choice(("method", "function", "star")))
+        if rng.random() < 0.3:
+            c["limit"] = rng.choice((8, 64, "1KiB"))      # block size target in bytes: never changes the values
     elif op == "transpose":
         form = rng.choice(("axes", "axes", "T", "none", "method"))
         axes = rng.sample(range(nd), nd)
@@ -227,6 +251,8 @@ def _gen(rng, op, long=False):
         else:
             k = rng.randint(1, 2)
             ax = rng.sample(range(nd + k), k)
+            if rng.random() < 0.4:
+                ax = [a - (nd + k) if rng.random() < 0.6 else a for a in ax]
         c.update(axis=ax)
     elif op in ("concatenate", "stack"):
         if op == "concatenate" and nd == 0:
@@ -240,6 +266,11 @@ def _gen(rng, op, long=False):
                 s2[ax] = rng.choice((0, 1, 2, 3, shape[ax]))
             secs.append(_sec(rng, s2))
         c.update(axis=ax, secs=secs, pos=rng.randint(0, k))
+        u = rng.random()
+        if op == "concatenate" and u < 0.08:
+            c["axis"] = None                               # NumPy: every member is flattened first
+        elif u < 0.3 and nd >= 1 and k >= 1:
+            _unknown(rng, c, shape, ax % nd if op == "concatenate" else None)
     elif op == "block":
         form = rng.choice(("row", "row", "grid", "grid", "deep", "single", "col"))
         if form in ("grid", "deep") and nd < 2:
@@ -262,6 +293,8 @@ def _gen(rng, op, long=False):
             lead = list(shape[:-2])
             secs = [_sec(rng, lead + [shape[-2], c2]), _sec(rng, lead + [r2, shape[-1]]), _sec(rng, lead + [r2, c2])]
         c.update(form=form, secs=secs)
+        if form == "row" and nd >= 1 and rng.random() < 0.3:
+            _unknown(rng, c, shape, nd - 1)
     elif op == "broadcast_to":
         src = tuple(1 if rng.random() < 0.4 else s for s in shape)
         lead = [rng.randint(0, 3) for _ in range(rng.choice((0, 0, 1, 2)))]
@@ -297,6 +330,11 @@ def _gen(rng, op, long=False):
                 idx = rng.sample(range(n), n)
             c["ikind"] = kind
         c.update(idx=idx, axis=ax, asarray=rng.random() < 0.5)
+        if audit and not long and rng.random() < 0.06:
+            c["axis"] = "omitted"                          # np.take(a, idx): the flattened array
+            n = int(np.prod(shape))
+            c["idx"] = [rng.randrange(n) for _ in range(rng.randint(0, 4))] if n else []
+            c["ikind"] = "flat"
     elif op == "shuffle":
         ax = rng.randrange(nd)
         n = shape[ax]
@@ -344,6 +382,12 @@ def _gen(rng, op, long=False):
             kw["stat_length"] = per_axis(lambda: rng.randint(1, 4)) if rng.random() < 0.85 else None
         elif mode in ("reflect", "symmetric") and rng.random() < 0.5:
             kw["reflect_type"] = rng.choice(("even", "even", "odd"))
+        if rng.random() < 0.12:
+            # a user function in the mode argument; NumPy's contract: modify `vector` in place, the return value is ignored
+            mode, kw = "callable", {}
+            c["udf"] = rng.choice(("const-inplace", "const-return", "line-inplace", "line-return"))
+            if rng.random() < 0.6:
+                kw["padder"] = rng.choice((1, 3, 7))
         c.update(mode=mode, pw=pw, kw=kw)
     elif op in ("tril", "triu"):
         c.update(k=rng.randint(-4, 4))
@@ -374,6 +418,8 @@ def _gen(rng, op, long=False):
             c.update(shift=[rng.randint(-9, 9) for _ in range(k)], axis=[rng.randrange(-nd, nd) for _ in range(k)])
     c.update(shape=list(shape), chunks=[list(x) for x in A.rand_chunks(rng, shape)], dtype=rng.choice(DT), seed=rng.randrange(2 ** 31),
              threads=rng.random() < 0.1)
+    if c.get("unk") and c["unk"]["same"]:
+        c["chunks"][c["unk"]["b"]] = list(c["unk"]["bchunks"])
     if longchunks:
         c["chunks"] = [list(longchunks) if n == sum(longchunks) else [n] for n in shape]
         c["dtype"] = rng.choice(("int64", "float64"))
@@ -381,7 +427,7 @@ def _gen(rng, op, long=False):
     if c["dtype"] == "datetime64[ns]":
         for s2 in c.get("secs", []) + [c[k] for k in ("pre", "app") if isinstance(c.get(k), dict)]:
             s2["dtype"] = "datetime64[ns]"
-    if op == "pad" and (c["mode"] in ("mean", "linear_ramp", "maximum", "minimum", "median") or c["kw"]) \
+    if op == "pad" and (c["mode"] in ("mean", "linear_ramp", "maximum", "minimum", "median", "callable") or c["kw"]) \
             and c["dtype"] in ("bool", "datetime64[ns]", "complex128"):
         c["dtype"] = rng.choice(("int64", "float64", "int8", "float32"))
     return c
@@ -405,6 +451,41 @@ def cases(tier, seed):
 
 
 # ------------------------------------------------------------------------------------------------ execution
+
+def _udf_const_inplace(vector, pad_width, iaxis, kwargs):
+    """The example of the NumPy documentation: in place, returns nothing."""
+    p = kwargs.get("padder", 10)
+    if pad_width[0]:
+        vector[:pad_width[0]] = p + iaxis
+    if pad_width[1]:
+        vector[-pad_width[1]:] = 2 * p + iaxis
+
+
+def _udf_const_return(vector, pad_width, iaxis, kwargs):
+    _udf_const_inplace(vector, pad_width, iaxis, kwargs)
+    return vector
+
+
+def _udf_line_inplace(vector, pad_width, iaxis, kwargs):
+    """Depends on the whole line (its interior, which on later axes contains the padding of the earlier ones)."""
+    inner = vector[pad_width[0]:len(vector) - pad_width[1]]
+    p = kwargs.get("padder", 0)
+    if pad_width[0]:
+        vector[:pad_width[0]] = max(inner.max(), p) if inner.size else p
+    if pad_width[1]:
+        vector[-pad_width[1]:] = inner[0] if inner.size else p
+
+
+def _udf_line_return(vector, pad_width, iaxis, kwargs):
+    _udf_line_inplace(vector, pad_width, iaxis, kwargs)
+    return vector
+
+
+# input predicates that are ONE mechanism whatever the symptom (exception / shape / values): one label each
+ONE_LABEL = {"mode=callable&function-returns-None", "axis-omitted&ndim>=2"}
+UDF = {"const-inplace": _udf_const_inplace, "const-return": _udf_const_return, "line-inplace": _udf_line_inplace,
+       "line-return": _udf_line_return}
+
 
 def _tup(v):
     """JSON lists -> tuples where NumPy wants tuples (axes, shapes); leaves ints/None alone."""
@@ -440,6 +521,8 @@ def _features(case, x):
             return "reflect_type=odd"
         if stat and sl is not None and any(max(q) > s for q, s in zip(np.broadcast_to(np.asarray(sl), (nd, 2)).tolist(), shape)):
             return "stat-mode&stat_length>axis"
+        if mode == "callable" and case["udf"].endswith("-inplace"):
+            return "mode=callable&function-returns-None"
         if any(s == 0 and max(p) > 0 for p, s in zip(pw, shape)):
             return "mode=%s&padded-axis-empty" % mode
         if mode == "mean" and x.dtype.kind in "iu" and sum(1 for p in pw if max(p) > 0) >= 2:
@@ -448,6 +531,8 @@ def _features(case, x):
             return "stat-mode&stat_length=None"
         f.append("mode=" + mode)
     elif op == "take":
+        if case["axis"] == "omitted":
+            return "axis-omitted&ndim>=2" if len(shape) >= 2 else "axis-omitted"
         f.append("indices=" + case.get("ikind", "empty"))
     elif op == "roll":
         if isinstance(case["axis"], list) and not isinstance(case["shift"], list):
@@ -466,6 +551,10 @@ def _features(case, x):
         if (ax is not None and shape and shape[ax] == 0) or (ax is None and shape == (0,)):
             return "repeated-axis-empty"
     elif op in ("concatenate", "stack", "block"):
+        if case.get("unk"):
+            f.append("unknown-chunks-on-%s-axis" % ("another" if case["unk"]["same"] else "the-concatenated"))
+        if op == "concatenate" and case["axis"] is None:
+            f.append("axis=None")
         if any(s["np"] for s in case.get("secs", [])):
             f.append("numpy-input")
         if op == "block":
@@ -510,11 +599,12 @@ def run_case(case, ctx):
             if not isda:
                 return X.reshape(tgt)
             form = case.get("form", "method")
+            lk = {"limit": case["limit"]} if case.get("limit") is not None else {}
             if form == "function":
-                return da.reshape(X, tgt, merge_chunks=case["mc"])
+                return da.reshape(X, tgt, merge_chunks=case["mc"], **lk)
             if form == "star" and len(tgt) > 0:
-                return X.reshape(*tgt, merge_chunks=case["mc"])
-            return X.reshape(tgt, merge_chunks=case["mc"])
+                return X.reshape(*tgt, merge_chunks=case["mc"], **lk)
+            return X.reshape(tgt, merge_chunks=case["mc"], **lk)
         if op == "transpose":
             form = case["form"]
             if form == "T":
@@ -532,10 +622,32 @@ def run_case(case, ctx):
             return mod.squeeze(X, axis=_tup(case["axis"]))
         if op == "expand_dims":
             return mod.expand_dims(X, _tup(case["axis"]))
+        unk = case.get("unk")
+        ukw = {}
+        if unk and op in ("concatenate", "stack", "block"):
+            b = unk["b"]
+            sec0, members = sec, [0]
+
+            def masked(V):
+                j = members[0]
+                members[0] += 1
+                n = V.shape[b]
+                m = np.random.default_rng(unk["mseed"] + (0 if unk["same"] else j)).random(n) < 0.6
+                if isda and isinstance(V, da.Array):
+                    m = da.from_array(m, chunks=(V.chunks[b],))
+                return V[(slice(None),) * b + (m,)]
+
+            def sec(s_):
+                return masked(sec0(s_))
+            X = masked(X)
+            if isda and unk["flag"]:
+                ukw["allow_unknown_chunksizes"] = True
         if op in ("concatenate", "stack"):
             seq = [sec(s) for s in case["secs"]]
             seq.insert(case["pos"], X)
-            return getattr(mod, op)(seq, axis=case["axis"])
+            return getattr(mod, op)(seq, axis=case["axis"], **ukw)
+        if op == "block" and unk:
+            return mod.block([X] + [sec(s) for s in case["secs"]], **ukw)
         if op == "block":
             ss = [sec(s) for s in case["secs"]]
             form = case["form"]
@@ -568,6 +680,8 @@ def run_case(case, ctx):
             idx = case["idx"]
             if case.get("asarray") and not isinstance(idx, int):
                 idx = np.asarray(idx, dtype=np.intp)
+            if case["axis"] == "omitted":
+                return mod.take(X, idx)
             return mod.take(X, idx, axis=case["axis"])
         if op == "shuffle":
             if not isda:
@@ -582,6 +696,8 @@ def run_case(case, ctx):
             return mod.tile(X, _tup(case["reps"]))
         if op == "pad":
             kw = {k: _tup(v) for k, v in case["kw"].items()}
+            if case["mode"] == "callable":
+                return mod.pad(X, _tup(case["pw"]), UDF[case["udf"]], **kw)
             return mod.pad(X, _tup(case["pw"]), mode=case["mode"], **kw)
         if op in ("tril", "triu"):
             return getattr(mod, op)(X, case["k"])
@@ -621,7 +737,9 @@ def run_case(case, ctx):
                 from ..core.ctx import dask_frame
 
                 fr = dask_frame(ex)
-                if 0 in shape and ((fr and fr[1] == "reshape_rechunk") or op == "reshape" or (op == "roll" and case["axis"] is None)):
+                if feat in ONE_LABEL:
+                    ctx.violation("%s:%s:differs-from-numpy" % (op, feat), "raised %s: %s" % (type(ex).__name__, str(ex)[:300]))
+                elif 0 in shape and ((fr and fr[1] == "reshape_rechunk") or op == "reshape" or (op == "roll" and case["axis"] is None)):
                     # reshape, and roll(axis=None) which ravels through it, reach the same code: one mechanism, one label prefix
                     ctx.exception(ex, prefix="reshape:zero-length", via=op)
                 elif op == "pad" and 0 in shape and fr and fr[1] == "concatenate3":
@@ -631,10 +749,12 @@ def run_case(case, ctx):
                     ctx.exception(ex, prefix="%s:%s" % (op, feat))
                 return
     ctx.count("compared")
+    _audit_counters(case, ctx, x, secs)
     approx = op == "pad" and case["mode"] in ("mean", "linear_ramp") and np.asarray(e).dtype.kind in "fc"
     m = compare_arrays(rv, e, exact=not approx, n=max(shape) if shape else 1, scale=8.0)
     if m:
-        ctx.violation("%s:%s:%s" % (op, feat, m[0]), m[1], lazy=(str(r.shape), str(r.dtype), str(r.chunks)))
+        ctx.violation("%s:%s:%s" % (op, feat, "differs-from-numpy" if feat in ONE_LABEL else m[0]), m[1],
+                      lazy=(str(r.shape), str(r.dtype), str(r.chunks)))
     ctx.count("lazy_meta_checked")
     m = lazy_meta_mismatch(r, rv)
     if m:
@@ -646,6 +766,32 @@ def run_case(case, ctx):
         param, c2 = sib
         S.check(ctx, op, param, r, (lambda: build(da, dx, sec_da, case=c2)), va=rv,
                 describe={k: v for k, v in c2.items() if case.get(k) != v})
+
+
+def _audit_counters(case, ctx, x, secs):
+    """Counters (with floors) of the parameter-audit families, counted on compared cases only."""
+    op, shape = case["op"], case["shape"]
+    if len(shape) >= 3 and len(set(shape)) == len(shape):
+        ctx.count("nd>=3_pairwise_different_lengths")
+        ctx.distinct("ops_on_nd>=3_pairwise_different", op)
+    if op == "reshape" and case.get("limit") is not None:
+        ctx.count("reshape_limit_given")
+    if op == "expand_dims" and isinstance(case["axis"], list) and any(a < 0 for a in case["axis"]):
+        ctx.count("expand_dims_negative_in_tuple")
+    if op in ("concatenate", "stack", "block"):
+        if case.get("unk"):
+            ctx.count("unknown_chunks_allow_flag" if case["unk"]["flag"] else "unknown_chunks_without_flag")
+        if op == "concatenate" and case["axis"] is None:
+            ctx.count("concatenate_axis_none")
+        if len({x.dtype.str} | {np.dtype(s["dtype"]).str for s in case.get("secs", [])}) >= 2:
+            ctx.count("members_of_mixed_dtypes")
+        if op == "concatenate" and case["axis"] is not None and case.get("secs") and \
+                any(s["shape"][case["axis"]] == 0 for s in case["secs"]) and len(shape) and shape[case["axis"]] != 0:
+            ctx.count("concatenate_zero_length_member")
+    if op == "take" and case["axis"] == "omitted":
+        ctx.count("take_axis_omitted")
+    if op == "pad" and case["mode"] == "callable":
+        ctx.count("pad_callable")
 
 
 def _other_int(srng, v, lo, hi):
@@ -733,6 +879,8 @@ def _sibling(case):
         return "k", c2
     if op == "take":
         idx = case["idx"]
+        if case["axis"] == "omitted":
+            return None
         n = shape[case["axis"]]
         if n == 0:
             return None
@@ -794,6 +942,12 @@ def _sibling(case):
         return "reps", c2
     if op == "pad":
         kw = case["kw"]
+        if case["mode"] == "callable" and srng.random() < 0.6:
+            if "padder" in kw and srng.random() < 0.6:
+                c2["kw"] = dict(kw, padder=srng.choice([v for v in (1, 3, 7) if v != kw["padder"]]))
+                return "pad_func_kwargs", c2
+            c2["udf"] = {"const": "line", "line": "const"}[case["udf"].split("-")[0]] + "-" + case["udf"].split("-")[1]
+            return "pad_func", c2
         if "constant_values" in kw and isinstance(kw["constant_values"], int) and srng.random() < 0.5:
             c2["kw"] = dict(kw, constant_values=srng.choice([v for v in (0, 1, 3, 7) if v != kw["constant_values"]]))
             return "constant_values", c2
